@@ -50,6 +50,10 @@ def sites_for(unit):
                 for m in re.finditer(pat, ml):
                     if '->' in ml[max(0, m.start() - 1):m.end() + 1] and name.startswith(('gt', 'minus')): continue
                     if '=>' in ml[max(0, m.start() - 1):m.end() + 1]: continue
+                    # not code: closure headers `|| expr`, generic/type contexts (`Option<u32>,`, `-> Result<`, `parse::<u32>()`, `I: A + B`)
+                    if name in ('or->and',) and re.search(r'(?:^|[(=,]\s*|\bmove\s+)\|\|\s*(?:\{|[A-Za-z_(&*!])', ml[max(0, m.start() - 8):m.end() + 3]) and not re.search(r'[\w)\]]\s*\|\|', ml[max(0, m.start() - 3):m.end()]): continue
+                    if name in ('lt->le', 'gt->ge', 'le->lt', 'ge->gt') and not re.search(r'[\w)\]] [<>]=? [\w(&*!-]', ml[max(0, m.start() - 2):m.end() + 2]): continue
+                    if name in ('plus->minus', 'minus->plus') and re.search(r'^\s*(?:[A-Z]\w*: |where |pub(?:\([^)]*\))? (?:fn|struct|enum|trait)|impl|fn )', ml) : continue
                     if name == 'int+1':
                         if ml[max(0, m.start() - 1):m.start()] in ('u', 'i', 'f', '_') or re.search(r'[A-Za-z_]$', ml[:m.start()]): continue
                         new = l[:m.start()] + str(int(m.group(1)) + 1) + l[m.end():]
